@@ -532,7 +532,10 @@ func (e *Engine) concretize(t *Term) uint64 {
 		// a value from the domains
 		free := e.freeOf(t)
 		if len(free) == 0 {
-			return t.eval(e.env)
+			v = t.eval(e.env)
+			e.decisions = append(e.decisions, decision{conc: true, val: v, taken: true, force: true})
+			e.assume(tEq(t, bvLit(v, t.bits)))
+			return v
 		}
 		if len(free) == 1 {
 			if d := e.dom[free[0]]; d != nil && len(d.vals) > 0 && !d.entangled {
